@@ -390,7 +390,15 @@ func (parameter *Parameter) Validate(ctx context.Context, opts ...ValidationOpti
 		}
 
 		if vo := getValidationOptions(ctx); vo.examplesValidationDisabled {
-			return nil
+			// only the comparison of examples with the schema is switched off
+			for _, k := range componentNames(parameter.Examples) {
+				if v := parameter.Examples[k]; v != nil {
+					if err := v.Validate(ctx); err != nil {
+						return fmt.Errorf("%s: %w", k, err)
+					}
+				}
+			}
+			return validateExtensions(ctx, parameter.Extensions)
 		}
 		if example := parameter.Example; example != nil {
 			if err := validateExampleValue(ctx, example, schema.Value); err != nil {
